@@ -318,4 +318,4 @@ func c17Asym(LA, LB int) {
 }
 
 func H_c17_asym_q() { c17Asym(7+rt.Choice("la", 2), 2) }
-func H_c17_asym_t() { c17Asym(12+rt.Choice("la", 2), 2+rt.Choice("lb", 2)) }
+func H_c17_asym_t() { c17Asym(9+rt.Choice("la", 2), 2+rt.Choice("lb", 2)) }
